@@ -18,6 +18,17 @@ CLAIMED = {
              "only blanks as whitespace.",
         technique="TLA+ spec (TagExpr.tla) model-checked with TLC + TLC-judged traces of the real parser on TLC-generated renderings",
     ),
+    "C20": dict(
+        text="TLC proves on the layering state machine of Config.tla (Default < File_1..n < CmdLine, mode post-processing, path joining, format/outfiles "
+             "coupling) that the stored value is the documented precedence for every option kind, and the -D parse laws on ALL strings up to the "
+             "bound over {letter,=,blank,quotes}; every case is rendered into real config files (behave.ini, .behaverc, setup.cfg, tox.ini, "
+             "pyproject.toml, cwd and HOME) and argv for every option of behave's real OPTIONS schema, Configuration() is constructed for real and "
+             "the recorded attributes / getter results are judged by TLC.",
+        design_ref="DESIGN.md §7 C20",
+        note="Bounded as stated in the evidence; list merging of append options, file-vs-file precedence and options forced by a mode switch are "
+             "recorded but not judged (the statement is silent); defaults are the documented ones.",
+        technique="TLA+ spec (Config.tla) model-checked with TLC + TLC-judged traces of the real Configuration on TLC-generated cases",
+    ),
 }
 
 PENDING_REASON = "check not built yet in this round (planned with the same TLA+/TLC technique, see DESIGN.md §7); not claimed until its check exists"
